@@ -33,10 +33,7 @@ Cen3(t) == <<t[1][1] + t[2][1] + t[3][1], t[1][2] + t[2][2] + t[3][2]>>
 \* two triangles may be parts of one valid multipolygon: interiors disjoint, touching only in points
 Compatible(t, u) ==
   /\ t # u
-  /\ \A e \in TriSegs(t) : \A f \in TriSegs(u) :
-        LET x == SegInter(e[1], e[2], f[1], f[2]) IN
-        /\ x.k # "overlap"
-        /\ x.k = "point" => ~(InteriorOf(x.p, e) /\ InteriorOf(x.p, f))
+  /\ \A e \in TriSegs(t) : \A f \in TriSegs(u) : ~ProperCross(e, f) /\ ~CollinearOverlap(e, f)
   /\ \A k \in 1..3 : ~Inside3(<<3*t[k][1], 3*t[k][2]>>, u) /\ ~Inside3(<<3*u[k][1], 3*u[k][2]>>, t)
   /\ ~Inside3(Cen3(t), u) /\ ~Inside3(Cen3(u), t)
 \* simple lattice quadrilaterals (convex or not), CCW, starting at the least vertex
@@ -48,20 +45,33 @@ Quads == { q \in Pts \X Pts \X Pts \X Pts :
              /\ Orient(q[1], q[2], q[3]) # 0 /\ Orient(q[2], q[3], q[4]) # 0 /\ Orient(q[3], q[4], q[1]) # 0 /\ Orient(q[4], q[1], q[2]) # 0 }
 QuadMp(q) == << << <<q[1], q[2], q[3], q[4], q[1]>> >> >>
 
-Hash(a, b) == (a[1][1] * 7 + a[1][2] * 13 + a[2][1] * 17 + a[2][2] * 19 + a[3][1] * 23 + a[3][2] * 29
-               + b[1][1] * 31 + b[1][2] * 37 + b[2][1] * 41 + b[2][2] * 43 + b[3][1] * 47 + b[3][2] * 53) \div L
-Sel(a, b) == Stride = 1 \/ (Hash(a, b) % Stride) = Offset
+RECURSIVE HashSeq(_, _)
+HashSeq(s, k) == IF k > Len(s) THEN 0 ELSE (s[k][1] \div L) * (3*k + 1) + (s[k][2] \div L) * (5*k + 2) + HashSeq(s, k + 1)
+H(t) == HashSeq(t, 1)
+Sel2(a, b) == Stride = 1 \/ ((H(a) * 31 + H(b)) % Stride) = Offset
+Sel3(a, a2, b) == Stride = 1 \/ ((H(a) * 31 + H(a2) * 17 + H(b)) % Stride) = Offset
 
+FrLo == 0 - L
+FrHi == (N + 1) * L
+Frame == << << << <<FrLo, FrLo>>, <<FrHi, FrLo>>, <<FrHi, FrHi>>, <<FrLo, FrHi>>, <<FrLo, FrLo>> >> >> >>
 Ops == {"int", "union", "diff", "xor"}
 
 Init ==
   /\ labs = <<>>
-  /\ \E o \in Ops :
-       CASE Family = "tri"  -> \E a \in Tris : \E b \in Tris : Sel(a, b) /\ SInit(TriMp(a), TriMp(b), o)
-         [] Family = "pair" -> \E a \in Tris : \E a2 \in Tris : \E b \in Tris :
-                                  Lex(a[1], a2[1]) /\ Sel(a, b) /\ Sel(a2, b) /\ Compatible(a, a2)
-                                  /\ SInit(TriMp(a) \o TriMp(a2), TriMp(b), o)
-         [] Family = "quad" -> \E a \in Quads : \E b \in Tris : Sel(b, b) /\ SInit(QuadMp(a), TriMp(b), o)
+  /\ CASE Family = "tri"  -> \E a \in Tris : \E b \in Tris : Sel2(a, b) /\ \E o \in Ops : SInit(TriMp(a), TriMp(b), o)
+       [] Family = "pair" -> \E a \in Tris : \E a2 \in Tris : \E b \in Tris :
+                                Lex(a[1], a2[1]) /\ Sel3(a, a2, b) /\ Compatible(a, a2)
+                                /\ \E o \in Ops : SInit(TriMp(a) \o TriMp(a2), TriMp(b), o)
+       [] Family = "pairB" -> \E a \in Tris : \E a2 \in Tris : \E b \in Tris :
+                                Lex(a[1], a2[1]) /\ Sel3(a, a2, b) /\ Compatible(a, a2)
+                                /\ \E o \in Ops : SInit(TriMp(b), TriMp(a) \o TriMp(a2), o)
+       [] Family = "nest" -> \E a \in Tris : \E b \in Tris :
+                                Sel2(a, b) /\ (\A k \in 1..3 : \A m \in 1..3 : Orient(a[m], a[(m % 3) + 1], b[k]) >= 0)
+                                /\ \E o \in Ops : (SInit(TriMp(a), TriMp(b), o) \/ SInit(TriMp(b), TriMp(a), o))
+       [] Family = "nest2" -> \E b \in Tris : \E b2 \in Tris :      \* two parts inside a fixed frame: holes, sibling holes
+                                Lex(b[1], b2[1]) /\ Sel2(b, b2) /\ Compatible(b, b2)
+                                /\ \E o \in Ops : (SInit(Frame, TriMp(b) \o TriMp(b2), o) \/ SInit(TriMp(b) \o TriMp(b2), Frame, o))
+       [] Family = "quad" -> \E a \in Quads : \E b \in Tris : Sel2(a, b) /\ \E o \in Ops : SInit(QuadMp(a), TriMp(b), o)
 
 Next == SNext /\ labs' = Append(labs, lab')
 Spec == Init /\ [][Next]_mcvars
